@@ -167,6 +167,8 @@ class KArr:
         if isinstance(k, slice):
             r = KSlice(self, self._slice(k))
             return r
+        if isinstance(k, (KArr, View, list)):
+            return self._take(k)
         k = k.__index__() if not isinstance(k, int) else k
         return NpScalar(self.e[k], self.dt)       # Python-level indexing: IndexError natively
 
@@ -194,6 +196,60 @@ class KArr:
 
     def tolist(self):
         return list(self.e)
+
+    # element-wise comparisons (NumPy semantics for 1-D arrays and scalars); elements of the result are bool | SBool
+    def _cmp(self, o, f):
+        oe = seq_elems(o) if isinstance(o, (KArr, View, list, tuple)) else [o.v if isinstance(o, NpScalar) else o] * len(self.e)
+        if len(oe) != len(self.e):
+            if len(oe) == 1:
+                oe = oe * len(self.e)
+            elif len(self.e) == 1:
+                return KArr([f(self.e[0], y) for y in oe], "bool")
+            else:
+                raise ValueError("operands could not be broadcast together with shapes (%d,) (%d,)" % (len(self.e), len(oe)))
+        return KArr([f(x, y) for x, y in zip(self.e, oe)], "bool")
+
+    def __lt__(self, o): return self._cmp(o, S.e_lt)
+    def __le__(self, o): return self._cmp(o, S.e_le)
+    def __gt__(self, o): return self._cmp(o, S.e_gt)
+    def __ge__(self, o): return self._cmp(o, S.e_ge)
+    def __eq__(self, o): return self._cmp(o, S.e_eq)
+    def __ne__(self, o): return self._cmp(o, S.e_ne)
+    __hash__ = None
+
+    def __invert__(self):
+        if self.dt != "bool":
+            raise HarnessError("kernel numpy: ~ on a %s array" % self.dt)
+        return KArr([S.e_not(x) for x in self.e], "bool")
+
+    def __and__(self, o):
+        return KArr([S.e_and(x, y) for x, y in zip(self.e, seq_elems(o))], "bool")
+
+    def __or__(self, o):
+        return KArr([S.e_or(x, y) for x, y in zip(self.e, seq_elems(o))], "bool")
+
+    def any(self):
+        return any(_decide(x) for x in self.e)
+
+    def all(self):
+        return all(_decide(x) for x in self.e)
+
+    def _take(self, k):
+        """Fancy indexing: boolean mask (each element decided: the result length is structure) or integer positions."""
+        ke = seq_elems(k)
+        kdt = k.arr.dt if isinstance(k, View) else getattr(k, "dt", "int64")
+        if kdt == "bool":
+            if len(ke) != len(self.e):
+                raise IndexError("boolean index did not match indexed array along axis 0; size of axis is %d but size of corresponding boolean axis is %d" % (len(self.e), len(ke)))
+            return KArr([x for x, b in zip(self.e, ke) if _decide(b)], self.dt)
+        out = []
+        n = len(self.e)
+        for i in ke:
+            i = i if isinstance(i, int) else E().concretize(i.t)
+            if not -n <= i < n:
+                raise IndexError("index %d is out of bounds for axis 0 with size %d" % (i, n))
+            out.append(self.e[i])
+        return KArr(out, self.dt)
 
 
 class KSlice(KArr):
@@ -379,6 +435,92 @@ class KNumpy(metaclass=_KNumpyMeta):
         dt = KNumpy._dt(dtype if dtype is not None else int)
         b, s = NpScalar.BITS[dt]
         return KArr([_wrap(x, b, s) for x in es], dt)
+
+    # ---- vectorised helpers a kernel (or a Python-level helper beside it) may use on sorted arrays
+    @staticmethod
+    def searchsorted(a, v, side="left"):
+        ae = seq_elems(a)
+        scalar = not isinstance(v, (KArr, View, list, tuple))
+        ve = [v.v if isinstance(v, NpScalar) else v] if scalar else seq_elems(v)
+        less = S.e_lt if side == "left" else S.e_le
+        out = []
+        for x in ve:
+            lo, hi = 0, len(ae)
+            while lo < hi:                      # NumPy's binary search; each comparison is a solver-decided branch
+                mid = (lo + hi) // 2
+                if _decide(less(ae[mid], x)):
+                    lo = mid + 1
+                else:
+                    hi = mid
+            out.append(lo)
+        return NpScalar(out[0], "int64") if scalar else KArr(out, "int64")
+
+    @staticmethod
+    def _ew(a, b, f):
+        ae = seq_elems(a) if isinstance(a, (KArr, View, list, tuple)) else None
+        be = seq_elems(b) if isinstance(b, (KArr, View, list, tuple)) else None
+        sc = lambda x: x.v if isinstance(x, NpScalar) else x
+        if ae is None and be is None:
+            return f(sc(a), sc(b))
+        if ae is None:
+            ae = [sc(a)] * len(be)
+        if be is None:
+            be = [sc(b)] * len(ae)
+        if len(ae) != len(be):
+            raise ValueError("operands could not be broadcast together")
+        dt = next((x.arr.dt if isinstance(x, View) else x.dt for x in (a, b) if isinstance(x, (KArr, View))), "int64")
+        return KArr([f(x, y) for x, y in zip(ae, be)], dt)
+
+    @staticmethod
+    def minimum(a, b):
+        return KNumpy._ew(a, b, S.e_min)
+
+    @staticmethod
+    def maximum(a, b):
+        return KNumpy._ew(a, b, S.e_max)
+
+    @staticmethod
+    def clip(a, lo, hi):
+        return KNumpy.minimum(KNumpy.maximum(a, lo), hi)
+
+    @staticmethod
+    def insert(arr, obj, values):
+        ae = seq_elems(arr)
+        dt = arr.arr.dt if isinstance(arr, View) else arr.dt
+        scalar = not isinstance(obj, (KArr, View, list, tuple))
+        pos = [obj] if scalar else seq_elems(obj)
+        pos = [(p.v if isinstance(p, NpScalar) else p) for p in pos]
+        pos = [p if isinstance(p, int) else E().concretize(p.t) for p in pos]
+        vals = seq_elems(values) if isinstance(values, (KArr, View, list, tuple)) else [values.v if isinstance(values, NpScalar) else values]
+        if len(vals) == 1 and len(pos) > 1:
+            vals = vals * len(pos)
+        if scalar and len(vals) > 1:
+            pos = pos * len(vals)
+        if len(vals) != len(pos):
+            raise ValueError("shape mismatch: value array could not be broadcast to indexing result")
+        n = len(ae)
+        for p in pos:
+            if not -n <= p <= n:
+                raise IndexError("index %d is out of bounds for axis 0 with size %d" % (p, n))
+        pos = [p + n if p < 0 else p for p in pos]
+        b, sg = NpScalar.BITS[dt]
+        order = sorted(range(len(pos)), key=lambda i: pos[i])      # stable, as numpy.insert (mergesort on the positions)
+        out, j = [], 0
+        for i in range(n + 1):
+            while j < len(order) and pos[order[j]] == i:
+                out.append(_wrap(vals[order[j]], b, sg))
+                j += 1
+            if i < n:
+                out.append(ae[i])
+        return KArr(out, dt)
+
+    @staticmethod
+    def flatnonzero(a):
+        return KArr([i for i, x in enumerate(seq_elems(a)) if _decide(x)], "int64")
+
+    @staticmethod
+    def arange(*a, dtype=None):
+        return KArr(list(sx_range(*a)), KNumpy._dt(dtype) if dtype is not None else "int64")
 
     @staticmethod
     def concatenate(parts):
